@@ -626,6 +626,46 @@ func runC04(r *rep.Report, thorough bool) error {
 				return err
 			}
 			res := strsOf(reply["results"])
+			// the end-to-end theorem (Props/C04E2E.lean) on this column: program inside the fragment,
+			// column type covered, value well-typed — then the theorem says the CHECK admits the document
+			if fv := fieldDump(ln.Val, col); fv != nil {
+				var colTys []*irdump.Ty
+				for _, tcols := range jsonCols[ln.Case] {
+					_ = tcols
+				}
+				for _, dd := range a.Env.Decls {
+					if dd.Kind != "struct" || dd.PkgPath != a.Env.PkgPath {
+						continue
+					}
+					for _, c2 := range jsonCols[ln.Case][dd.Name] {
+						for _, f := range dd.Fields {
+							if f.Name == c2 {
+								colTys = append(colTys, f.T)
+							}
+						}
+					}
+				}
+				frag, err := d.Call(map[string]any{"op": "c04.fragment", "env": a.Env, "wrappers": wrapperSets(a, l.Mod.Root), "columns": append([]*irdump.Ty{ft}, colTys...),
+					"values": []map[string]any{{"type": ft, "val": fv}}})
+				if err != nil {
+					return err
+				}
+				inFrag, _ := frag["inFragment"].(bool)
+				colOK, _ := frag["columns"].([]any)[0].(bool)
+				ht, _ := frag["hasType"].([]any)[0].(bool)
+				switch {
+				case !inFrag:
+					r.Hist("end-to-end-theorem:program-outside-the-fragment")
+				case !colOK || !ht:
+					r.Hist("end-to-end-theorem:column-or-value-not-covered")
+				default:
+					r.Hist("end-to-end-theorem:document-covered")
+					if res[0] != "true" && res[0] != "null" {
+						r.Disagree(rep.Disagreement{Tie: "c04.end-to-end-theorem-vs-evaluation", Input: map[string]any{"case": ln.Case, "table": ln.Type, "column": col, "document": raw, "sources": a.Case.Sources()},
+							Model: "theorem C04_check_admits: the CHECK admits the document of a well-typed value of a covered column", Impl: res[0]})
+					}
+				}
+			}
 			in := map[string]any{"case": ln.Case, "table": ln.Type, "column": col, "document": raw, "sources": a.Case.Sources()}
 			r.Case(map[string]any{"case": ln.Case, "column": ln.Type + "." + col, "doc": raw}, strings.ContainsAny(raw, "[{"))
 			if res[0] != "true" && res[0] != "null" {
@@ -692,6 +732,19 @@ func realSig(clash bool, sig string) string {
 		return "c04:real-script-verdict-differs:two-types-one-validator-name"
 	}
 	return sig
+}
+
+// fieldDump returns the dumped value of a field of a dumped struct value
+func fieldDump(v any, field string) any {
+	m, _ := v.(map[string]any)
+	fs, _ := m["f"].([]any)
+	for _, f := range fs {
+		fm, _ := f.(map[string]any)
+		if fm["n"] == field {
+			return fm["v"]
+		}
+	}
+	return nil
 }
 
 // c04Shape: known shapes of the column type under which validators and Go disagree
